@@ -1224,10 +1224,13 @@ pub struct GenOpts {
     /// a run in which peptide-level FDR can reach 1%: (almost) every spectrum is the full ladder of a distinct TARGET
     /// peptide; every 12th is a DECOY peptide with a thinned, weak ladder (the decoy class the KDE / q-values need)
     pub scale: bool,
+    /// add a protein made of the interior reversals of protein 0's tryptic peptides: every such peptide is the
+    /// generated decoy of a real target of another protein (the decoy must be dropped, not merged) (seeded C01-K)
+    pub mirror: bool,
 }
 
 pub fn random_request(rng: &mut Rng, nspec: usize) -> Option<Request> {
-    random_request_opts(rng, nspec, &|_| {}, GenOpts { format: None, nfiles: None, scale: false })
+    random_request_opts(rng, nspec, &|_| {}, GenOpts { format: None, nfiles: None, scale: false, mirror: false })
 }
 
 /// the legacy shape: MGF files only, no LFQ, MS2-level TMT
@@ -1241,7 +1244,7 @@ pub fn random_request_with(rng: &mut Rng, nspec: usize, tweak: &dyn Fn(&mut Cfg)
             c.tmt_sn = false;
             tweak(c)
         },
-        GenOpts { format: Some(0), nfiles: None, scale: false },
+        GenOpts { format: Some(0), nfiles: None, scale: false, mirror: false },
     )
 }
 
@@ -1280,6 +1283,23 @@ pub fn random_request_opts(rng: &mut Rng, nspec: usize, tweak: &dyn Fn(&mut Cfg)
     for i in 0..nprot {
         let len = if opts.scale { 80 + rng.below(20) } else { 20 + rng.below(60) };
         fasta.push((format!("sp|P{:05}|PROT{}", i, i), random_protein(rng, len)));
+    }
+    if opts.mirror {
+        let src = fasta[0].1.clone().into_bytes();
+        let mut out: Vec<u8> = Vec::new();
+        let mut start = 0usize;
+        for i in 0..src.len() {
+            if src[i] == b'K' || src[i] == b'R' || i + 1 == src.len() {
+                let mut frag = src[start..=i].to_vec();
+                let n = frag.len();
+                if n >= 3 {
+                    frag[1..n - 1].reverse();
+                }
+                out.extend_from_slice(&frag);
+                start = i + 1;
+            }
+        }
+        fasta.push(("sp|M00000|MIRROR0".to_string(), String::from_utf8(out).unwrap()));
     }
     // a shared peptide between two proteins
     if nprot >= 2 {
@@ -1642,7 +1662,7 @@ fn directed(rng: &mut Rng, which: usize) -> Option<Request> {
                 c.override_charge = false;
                 c.bucket = 8192;
             },
-            GenOpts { format: Some(1), nfiles: Some(1), scale: true },
+            GenOpts { format: Some(1), nfiles: Some(1), scale: true, mirror: false },
         )?,
         // LFQ over a mix of MGF / mzML / mzML.gz files, charge states kept apart, apex integration
         5 => random_request_opts(
@@ -1665,7 +1685,7 @@ fn directed(rng: &mut Rng, which: usize) -> Option<Request> {
                 c.iso = (0, 0);
                 c.override_charge = false;
             },
-            GenOpts { format: None, nfiles: Some(3), scale: true },
+            GenOpts { format: None, nfiles: Some(3), scale: true, mirror: false },
         )?,
         // MS3-level TMT with signal-to-noise: reporter scans reference their MS2 spectrum
         6 => random_request_opts(
@@ -1677,7 +1697,7 @@ fn directed(rng: &mut Rng, which: usize) -> Option<Request> {
                 c.tmt_sn = true;
                 c.lfq = Lfq::default();
             },
-            GenOpts { format: Some(1), nfiles: Some(2), scale: false },
+            GenOpts { format: Some(1), nfiles: Some(2), scale: false, mirror: false },
         )?,
         // parquet: MS2-level TMT over three files (random formats) whose scan ids COLLIDE, fragment annotation on
         7 => {
@@ -1694,7 +1714,7 @@ fn directed(rng: &mut Rng, which: usize) -> Option<Request> {
                     c.batch = 2;
                     c.prefilter = false;
                 },
-                GenOpts { format: None, nfiles: Some(3), scale: false },
+                GenOpts { format: None, nfiles: Some(3), scale: false, mirror: false },
             )?
         }
         // parquet: MS3-level TMT over two mzML files with colliding scan ids (some MS2 spectra have no MS3 scan:
@@ -1709,7 +1729,7 @@ fn directed(rng: &mut Rng, which: usize) -> Option<Request> {
                 c.lfq = Lfq::default();
                 c.report_psms = 2;
             },
-            GenOpts { format: Some(1), nfiles: Some(2), scale: false },
+            GenOpts { format: Some(1), nfiles: Some(2), scale: false, mirror: false },
         )?,
         // target-only database: no decoy record and none generated, so the rescoring model cannot be fitted and
         // the runner reports its heuristic fallback score, which must be finite (seeded C15-J); weak spectra are
@@ -1720,6 +1740,32 @@ fn directed(rng: &mut Rng, which: usize) -> Option<Request> {
             c.chimera = false;
             c.prefilter = false;
         })?,
+        // more raw peaks than max_peaks, no deisotoping: the top-N selection really drops peaks and the result
+        // must still be sorted by mass for the fragment look-ups (seeded C01-L)
+        10 => random_request_with(rng, 9, &|c| {
+            c.deisotope = false;
+            c.max_peaks = 150;
+            c.tmt = 0;
+            c.lfq = Lfq::default();
+            c.chimera = false;
+        })?,
+        // a protein whose tryptic peptides are the interior reversals of another protein's: generated decoys that
+        // coincide with real targets (seeded C01-K)
+        11 => random_request_opts(
+            rng,
+            12,
+            &|c| {
+                c.cleave = "KR".into();
+                c.restrict = None;
+                c.cterm = true;
+                c.semi = false;
+                c.gen_decoys = true;
+                c.tmt = 0;
+                c.lfq = Lfq::default();
+                c.prefilter = false;
+            },
+            GenOpts { format: None, nfiles: None, scale: false, mirror: true },
+        )?,
         _ => random_request_with(rng, 9, &|_| {})?,
     };
     // the `--parquet` second run: the chimera run (ranks > 1), both LFQ runs, all TMT runs
@@ -1729,6 +1775,21 @@ fn directed(rng: &mut Rng, which: usize) -> Option<Request> {
     match which {
         7 | 8 => {
             collide_scan_ids(&mut r)?;
+        }
+        10 => {
+            r.parquet = false;
+            for f in r.files.iter_mut() {
+                for s in f.iter_mut() {
+                    let extra = 170 + rng.below(80);
+                    for _ in 0..extra {
+                        s.peaks.push((150.0 + rng.unit() as f32 * 1600.0, 1.0 + 4.0 * rng.unit() as f32));
+                    }
+                    s.peaks.sort_by(|a, b| a.0.total_cmp(&b.0));
+                }
+            }
+        }
+        11 => {
+            r.parquet = false;
         }
         9 => {
             r.parquet = false;
@@ -1834,7 +1895,7 @@ pub fn gen(rng: &mut Rng, tier: Tier, emit: &mut dyn FnMut(Case)) {
     let mut made = 0;
     let mut tries = 0;
     let mut next_directed = 0usize;
-    const NDIRECTED: usize = 10;
+    const NDIRECTED: usize = 12;
     while made < n + NDIRECTED && tries < (n + NDIRECTED) * 12 {
         tries += 1;
         let nspec = 4 + rng.below(if tier == Tier::Quick { 8 } else { 30 });
@@ -1868,7 +1929,7 @@ pub fn gen(rng: &mut Rng, tier: Tier, emit: &mut dyn FnMut(Case)) {
                     c.iso = (0, 0);
                     c.override_charge = false;
                 },
-                GenOpts { format: None, nfiles: None, scale: true },
+                GenOpts { format: None, nfiles: None, scale: true, mirror: false },
             )
         } else {
             // a third of the random runs are repeated with `--parquet`; half of those with multi-file TMT get
